@@ -161,7 +161,8 @@ def dead_shape_game(rng, kind, pattern, front=None, dead_reward=None, selfloop=N
                 xtl.append([(Fr(1), lose)])
         else:
             rewards.append(rng.choice([0, 1, 2]))
-            q = rng.choice([Fr(1), Fr(1, 2), Fr(3, 4), Fr(1, 4)])
+            q = rng.choice([Fr(1), Fr(1, 2), Fr(3, 4), Fr(1, 4)]) if rng.random() < 0.8 else \
+                rng.choice([Fr(1, 2 ** 31), Fr(1, 2 ** 40), Fr(1, 2 ** 50), Fr(1, 2 ** 20)])   # tiny but positive
             if q == 1:
                 xtl.append([(Fr(1), win)])
             else:
